@@ -110,7 +110,14 @@ func execute(t *testing.T, eng *Engine, seed uint64, wl, sch *Tape) (res RunResu
 		} else if raceBuild {
 			// with the race detector a reported race makes synctest.Test call FailNow on its caller: give it a subtest
 			// of its own so that only that goroutine ends and the worker goes on to report the violation
-			t.Run("bubble", func(t *testing.T) { synctest.Test(t, body) })
+			t.Run("bubble", func(t *testing.T) {
+				defer func() {
+					if r := recover(); r != nil { // the end-of-bubble leak panic is raised on this goroutine
+						res.Panic = fmt.Sprint(r)
+					}
+				}()
+				synctest.Test(t, body)
+			})
 		} else {
 			synctest.Test(t, body)
 		}
